@@ -1,11 +1,13 @@
 // C11 driver shared by the std harness (harness/src/bin/c11.rs) and the no_std-configured
-// harness (harness_nostd/src/bin/c11n.rs) through include!().  The including file provides
-// `serve`, `catch` (harness plumbing) and `const NOSTD: i128`.
+// harnesses (harness_nostd/src/bin/c11n.rs; harness_nightly_nostd builds bin/c11.rs itself) through
+// include!().  The including file provides `serve`, `catch` (harness plumbing).  Which configuration
+// of the dasp crates the binary was linked against is detected at run time (`build_nostd`) and
+// checked against the `nostd` field of every case.
 //
 // Input line:  R <fmt> <nostd> <chans> <first> <N> ; <N*chans init window bit patterns> ; op , op ...
 //   fmt 0 f32, 1 f64 (samples = bit patterns), 2 i16, 3 u8 (samples = values)
-//   op: n v.. (next)  q v.. (next_squared)  c (current)  r (reset)
-// Output: per op `2 out-bits..` (reset: `7`) ; `3 square_sum-bits..` (clone().into_parts());
+//   op: n v.. (next)  q v.. (next_squared)  c (current)  r (reset)  w (observe the window)
+// Output: per op `2 out-bits..` (reset: `7`; w: `5 window..`) ; `3 square_sum-bits..` (clone().into_parts());
 //   at the end `5 window..` (iteration order, flattened) ; `4 window_frames`;
 //   panicking constructor: `8 code`.  NaN canonicalised to the quiet NaN.
 use dasp_frame::Frame;
@@ -28,6 +30,11 @@ fn s_f64(v: i128) -> f64 { f64::from_bits(v as u64) }
 fn s_i16(v: i128) -> i16 { v as i16 }
 #[allow(dead_code)]
 fn s_u8(v: i128) -> u8 { v as u8 }
+
+/// 1 when dasp_sample was built without `std` (sample_sqrt is the bit trick: sqrt(2.0) = 1.5), else 0
+pub fn build_nostd() -> i128 {
+    if dasp_sample::FloatSample::sample_sqrt(2.0f32) == 1.5 { 1 } else { 0 }
+}
 
 fn ob(tag: u64, v: &[u64]) -> String {
     let mut s = tag.to_string();
@@ -73,6 +80,16 @@ macro_rules! driver {
                     'r' => {
                         rms.reset();
                         ob(7, &[])
+                    }
+                    'w' => {
+                        let (w, _) = rms.clone().into_parts();
+                        let mut flat = Vec::new();
+                        for f in w.iter() {
+                            for x in f.channels() {
+                                flat.push($flbits(x));
+                            }
+                        }
+                        ob(5, &flat)
                     }
                     other => panic!("unknown op {}", other),
                 });
@@ -127,7 +144,7 @@ pub fn run_r(line: &str) -> String {
     let head: Vec<&str> = parts[0].split_whitespace().collect();
     let h: Vec<i128> = head[1..].iter().map(|t| t.parse().unwrap()).collect();
     let (fmt, nostd, chans, first, n) = (h[0], h[1], h[2] as usize, h[3] as usize, h[4] as usize);
-    assert!(nostd == NOSTD, "case is for the other build configuration");
+    assert!(nostd == build_nostd(), "case is for the other build configuration");
     let init = nums(parts[1]);
     assert!(init.len() == n * chans);
     let ops: Vec<ROp> = parts[2]
